@@ -302,6 +302,7 @@ PROPS = {
                           "leaf_sct_entry", "leaf_msg_heartbeat", "leaf_prwh_heartbeat", "leaf_prwh_appdata", "fd_raw_record_small", "mod_client_hello", "mod_dtls_client_hello",
                           "leaf_hs_certificate", "leaf_ext_sni", "leaf_ec_parameters", "fd_dtls_header", "fd_defrag_default"],
                    thorough=["leaf_hs_certificate_request", "leaf_sct_list_short", "mod_client_hello_long"], timeout=900, timeout_thorough=2400)],
+        standins=[dict(name="debug_format", kind="bounded-execution", bound="22 public parsers x (all inputs of length <= 2 + 276 boundary inputs of length 3..48): every Ok value is formatted with {:?}", payload={"debug_format_check": 1})],
         witness_search={"defrag": {"defrag_search": True, "depth": 3}},
         explanation="see level_text",
     ),
